@@ -3,6 +3,7 @@ repeatable; a successful command has written everything it was asked for."""
 import importlib
 import json
 import os
+import urllib.parse
 import subprocess
 import sys
 
@@ -115,6 +116,8 @@ def cases(draw):
                                   draw(st.integers(0, 2)))
         if sharded else None,
         "repeat": draw(st.sampled_from([None, "v2p", "compute", "both"])),
+        "spelling": draw(st.sampled_from(["plain", "plain", "trailing_slash",
+                                          "file_url", "file_url_escaped"])),
         "convert": draw(st.sampled_from([None, None, "raw",
                                          "compressed_segmentation"])),
         "stats": draw(st.booleans()),
@@ -220,17 +223,34 @@ def check_case(ctx, case, mode="inproc"):
                          % (what, MODULES[name], " ".join(args[-6:]), rc, err,
                             describe(case)))
 
+        # how dataset locations are spelled on the command lines (the reads
+        # of the oracle always use the real directory)
+        spelling = case.get("spelling", "plain")
+        base = root
+        if spelling == "file_url_escaped":
+            base = os.path.join(root, "my data")
+            os.makedirs(base)
+
+        def sp(d):
+            if spelling == "trailing_slash":
+                return d + "/"
+            if spelling == "file_url":
+                return "file://" + d
+            if spelling == "file_url_escaped":
+                return "file://" + urllib.parse.quote(d)
+            return d
         # ---- P2: the documented sequence of separate commands --------------
-        p2 = os.path.join(root, "p2")
+        p2 = os.path.join(base, "p2")
         gen = ["--generate-info"] + read_opts(case)
         if case["sharding"]:
             gen += ["--sharding", case["sharding"]]
-        rc, err = run_cmd("v2p", [path, p2] + gen + common_opts(case), mode)
+        rc, err = run_cmd("v2p", [path, sp(p2)] + gen + common_opts(case),
+                          mode)
         if rc not in (0, 4):
             ctx.fail("generate-info exited with status %d (%s)" % (rc, err))
-        must("gsi", [os.path.join(p2, "info_fullres.json"), p2]
+        must("gsi", [os.path.join(p2, "info_fullres.json"), sp(p2)]
              + info_opts(case), "step-by-step")
-        v2p_args = [path, p2] + read_opts(case) + common_opts(case)
+        v2p_args = [path, sp(p2)] + read_opts(case) + common_opts(case)
         must("v2p", v2p_args, "step-by-step")
         if case["repeat"] in ("v2p", "both"):
             info_a, lv_a = read_dataset_scale0(ctx, p2)
@@ -240,7 +260,7 @@ def check_case(ctx, case, mode="inproc"):
                 ctx.fail("running volume-to-precomputed a second time "
                          "changed the decoded full-resolution scale (%s)"
                          % describe(case))
-        comp_args = [p2] + ds_opts(case) + common_opts(case)
+        comp_args = [sp(p2)] + ds_opts(case) + common_opts(case)
         must("compute", comp_args, "step-by-step")
         info2, levels2 = read_dataset(ctx, p2, "step-by-step pipeline")
         if case["repeat"] in ("compute", "both"):
@@ -251,19 +271,20 @@ def check_case(ctx, case, mode="inproc"):
                 ctx.fail("running compute-scales a second time changed the "
                          "decoded dataset (%s)" % describe(case))
         if case["stats"]:
-            must("stats", [p2], "scale-stats")
+            must("stats", [sp(p2)], "scale-stats")
         # ---- optional re-encoding -------------------------------------------
         if case["convert"] and not (
                 case["convert"] == "compressed_segmentation"
                 and info2["data_type"] not in ("uint8", "uint16", "uint32",
                                                "uint64")):
-            p3 = os.path.join(root, "p3")
-            args = [os.path.join(p2, "info_fullres.json"), p3,
+            p3 = os.path.join(base, "p3")
+            args = [os.path.join(p2, "info_fullres.json"), sp(p3),
                     "--encoding", case["convert"]]
             if case["type"]:
                 args += ["--type", case["type"]]
             must("gsi", args, "re-encoding")
-            must("convert", [p2, p3] + common_opts(case), "re-encoding")
+            must("convert", [sp(p2), sp(p3)] + common_opts(case),
+                 "re-encoding")
             info3, levels3 = read_dataset(ctx, p3, "convert-chunks output")
             if len(levels3) != len(levels2):
                 ctx.fail("re-encoded dataset has %d scales, source %d" % (
@@ -274,8 +295,8 @@ def check_case(ctx, case, mode="inproc"):
                              "(%s)" % (i, describe(case)))
         # ---- P1: the all-in-one command --------------------------------------
         if case["sharding"] is None:
-            p1 = os.path.join(root, "p1")
-            args = [path, p1] + read_opts(case) + info_opts(case) + \
+            p1 = os.path.join(base, "p1")
+            args = [path, sp(p1)] + read_opts(case) + info_opts(case) + \
                 ds_opts(case) + common_opts(case)
             must("pyramid", args, "all-in-one")
             info1, levels1 = read_dataset(ctx, p1, "all-in-one command")
@@ -330,7 +351,8 @@ def run(ctx, n):
             "repeat." + str(case["repeat"]),
             "sharded" if case["sharding"] else "unsharded",
             "enc." + str(case["encoding"]), "method." + str(case["method"]),
-            "convert." + str(case["convert"])])
+            "convert." + str(case["convert"]),
+            "spelling." + case.get("spelling", "plain")])
     ctx.run_hypothesis(cases(), check, n)
 
 
